@@ -352,7 +352,7 @@ class CoqCases:
         t_end = time.time() + self.timeout
         while idx < len(paths) or running:
             while idx < len(paths) and len(running) < NPROC:
-                pr = subprocess.Popen(["bash", "-c", "ulimit -s unlimited 2>/dev/null; exec coqc \"$@\"", "coqc"]
+                pr = subprocess.Popen(["bash", "-c", "ulimit -s unlimited 2>/dev/null; exec coqc \"$@\"", "coqc", "-noglob"]
                                       + COQ_FLAGS + [paths[idx]], cwd=d, stdout=subprocess.PIPE,
                                       stderr=subprocess.STDOUT, text=True, errors="replace")
                 running.append((idx, pr))
